@@ -1013,3 +1013,13 @@ silent('C10', 'sink-cancel-loop-over-a-copy-then-clears',
 fire('C14', 'activation-waits-for-the-trip (seed C14-c)', 'C14.R2', 'wait-set-and-departure',
      lambda p: M.replace_node(p, S_FLT, 'FleetStore.fleet_activation_process', M.stmt_calling('self.env.process', 'move_to_ready_items'),
                               lambda s: 'yield ' + s))
+
+# ---- C13.R4: continuous belt - the exit must be free, the stall flag alone lags (seed C13-c)
+fire('C13', 'belt-gate-trusts-stall-flag (seed C13-c)', 'C13.R4', 'accumulation-gate',
+     lambda p: M.replace_node(p, S_BELT, 'BeltStore._do_reserve_put', M.if_testing('self.accumulation_mode_indicator == True'),
+                              sub('(self.noaccumulation_mode_on==False and len(self.ready_items)==0) or (self.noaccumulation_mode_on==True and len(self.ready_items)==0)',
+                                  'self.noaccumulation_mode_on==False or len(self.ready_items)==0')))
+silent('C13', 'belt-gate-simplified',
+       lambda p: M.replace_node(p, S_BELT, 'BeltStore._do_reserve_put', M.if_testing('self.accumulation_mode_indicator == True'),
+                                sub('(self.noaccumulation_mode_on==False and len(self.ready_items)==0) or (self.noaccumulation_mode_on==True and len(self.ready_items)==0)',
+                                    'not self.ready_items')))
